@@ -352,7 +352,9 @@ func SolveFns(fcs []*FnCtx, extra []*Oblig, dir string, timeout time.Duration, t
 		wg.Add(1)
 		go func(fc *FnCtx) {
 			defer wg.Done()
-			SolveBatch(fc, dir, 3000)
+			if os.Getenv("GOWP_NOBATCH") == "" {
+				SolveBatch(fc, dir, 3000)
+			}
 		}(fc)
 	}
 	wg.Wait()
